@@ -6,12 +6,20 @@ def key_fn(case, obs, verdict):
     f = case.split(" ")
     why = verdict.split(":", 1)[1] if ":" in verdict else verdict
     if f[0] == "conc":
+        if f[3] == "meet":
+            f = f[:3] + f[4:]
+        if why.startswith("shared profile"):
+            return "conc-%s:shared-profile:exhausted-early" % f[3]
         if why.startswith("concurrent first Next"):
             what = "before-start" if "before the schedule" in why else "not-one-start" if "one start" in why else \
                 "finish-disagrees" if "finish" in why else "start-after-first-return"
             return "conc-%s:unstarted-shared-schedule:%s" % (f[3], what)
         return "conc-" + key_fn(" ".join(f[3:]), obs, verdict)
     kind = f[0]
+    if kind == "list":
+        what = "finish" if why.startswith("finish") else "left" if why.startswith("Left") else \
+            "post-exhaustion" if why.startswith("exhausted") else "tokens-vs-parts" if why.startswith("tokens") else why[:40]
+        return "list:%s" % what
     if kind in ("const", "line", "step"):
         d = int(f[-1])
         dk = "whole-second" if d % 1000000000 == 0 else ("sub-second" if d < 1000000000 else "fractional-second")
